@@ -619,3 +619,12 @@ _run_c09_prev6 = run
 def run(res, facts, tier):
     _run_c09_prev6(res, facts, tier)
     r7_attribute_step(res, facts)
+
+
+_run_c09_prev7 = run
+
+
+def run(res, facts, tier):
+    _run_c09_prev7(res, facts, tier)
+    from . import c02_parse
+    c02_parse.run_pattern_rule(res, facts, tier)
